@@ -172,6 +172,7 @@ fn check_tree(idx: u64, c: &Cond, full_state: bool, distinct: bool, acc: &mut Ac
         acc.cutoffs += 1;
         return;
     }
+    acc.count(if f.negative_odd_live { "diag_failing_tree_evaluates_ifodd_on_a_negative_odd_number" } else { "diag_failing_tree_of_any_other_kind" });
     let class = if f.negative_odd_live { "tree DIFFERS (a live \\ifodd on a negative odd number)" } else { "tree DIFFERS (other)" };
     acc.class(&format!("{class} impl={}", out.class()));
     acc.fail(idx, json!({"kind": "tree", "tree": cond_json(c), "full_state": full_state, "program": src}), mm::show(&want), out.show(), class);
@@ -571,7 +572,7 @@ fn main() {
         ctx.finish_replay(acc);
     }
     let thorough = !ctx.quick();
-    let string_maxlen: u32 = ctx.pick(5, 7);
+    let string_maxlen: u32 = ctx.pick(6, 7);
     let wide_nodes: usize = ctx.pick(2, 3);
 
     if std::env::var("C07_COUNTS").is_ok() {
@@ -643,7 +644,7 @@ fn main() {
 
     // T3: deeper trees over a small menu
     {
-        let (nodes, depth, deco_nodes) = ctx.pick((5usize, 3usize, 3usize), (6, 4, 4));
+        let (nodes, depth, deco_nodes) = ctx.pick((5usize, 4usize, 3usize), (6, 4, 4));
         let shape = Shape::new(deep_variants(), forms(false), nodes, depth);
         let n = shape.total();
         let sref = &shape;
